@@ -169,23 +169,26 @@ def get_code(thing: object, *nested_names: str) -> types.CodeType:
     top_name = code.co_name
     for idx, name in enumerate(nested_names):
         # A generic function or class (PEP 695) is defined inside an
-        # additional scope that holds its type parameters
-        candidates = [
-            inner
-            for const in code.co_consts
-            if isinstance(const, types.CodeType)
-            and const.co_name == f"<generic parameters of {name}>"
-            for inner in const.co_consts
-        ]
-        for const in (*code.co_consts, *candidates):
-            if isinstance(const, types.CodeType) and const.co_name == name:
-                code = const
-                break
-        else:
+        # additional scope that holds its type parameters.
+        # If the name is defined more than once (typing.overload stubs
+        # followed by the implementation, say), the last definition is
+        # the one that the name ends up bound to.
+        found: Optional[types.CodeType] = None
+        for const in code.co_consts:
+            if not isinstance(const, types.CodeType):
+                continue
+            if const.co_name == name:
+                found = const
+            elif const.co_name == f"<generic parameters of {name}>":
+                for inner in const.co_consts:
+                    if isinstance(inner, types.CodeType) and inner.co_name == name:
+                        found = inner
+        if found is None:
             raise ValueError(
                 f"Couldn't find a function or class named {name!r} in "
                 + ".".join([top_name, *nested_names[:idx]])
             )
+        code = found
 
     return code
 
